@@ -105,6 +105,7 @@ BASES = [
     base("http", "example.com", segs=["go"], items=[("url", "http://target.com/page")]),
     base("http", "example.com", segs=["app"], frag="/route/X"),                       # routing fragments (kept by normalize_url)
     base("https", "example.com", frag="!/users/John"),
+    base("http", "example.com", segs=["a\u00a0b", "c\u3000"], items=[("k", "v\u2003w")]),     # raw unicode whitespace inside components (escaped in the canonical form)
     base("http", "co.uk", segs=["about"]),                                             # a host that is itself a public suffix
     base("http", "example.com", segs=["p"], items=[("tag", "b"), ("tag", "a"), ("tag", None)]),     # one key, several values: the order of items is irrelevant
     base("http", "example.com", user="z\u200bw", segs=["a\u200bb", "\u00ad"], items=[("k", "\ufeffv")], frag="x\u2060y"),      # invisible (format) characters are not control characters
@@ -217,7 +218,7 @@ C20 = {
                val("i", "1"), val("f", "1.5"), val("T", "True"), val("F", "False"), val("N", "None")],
     "keys": [cp(x) for x in ["hello", "k", "a&b", "q?=", "é", "x y", "number"]],
     "addarg_urls": [cp(x) for x in ["http://lemonde.fr", "http://lemonde.fr/", "http://lemonde.fr?x=1", "http://lemonde.fr/p?x=1&y=2#frag", "http://lemonde.fr#frag",
-                                     "lemonde.fr/p?", "http://lemonde.fr/p?x=a%20b#f?g", "http://lemonde.fr#a#b", "http://lemonde.fr/p?x=1#/route#top"]],
+                                     "lemonde.fr/p?", "http://lemonde.fr/p?x=a%20b#f?g", "http://lemonde.fr#a#b", "http://lemonde.fr/p?x=1#/route#top", "http://lemonde.fr/?x=1?", "lemonde.fr/p?a=b?c=d&e=f?"]],
     "pathsplit": [cp(x) for x in ["", "/", "/a", "a/b", "/a/b/", "//a//b//", " /a/b ", "/a b/c", "//", "///", " / ", "/ /"]],
 }
 
@@ -317,6 +318,8 @@ C17 = {
         _el('<SCRIPT>var t = "<a href=/in-upper-script>x</a>";</SCRIPT>'),
         _el('<Script type="module">html`<a href="http://in.mixed-case.script.com/">y</a>`</Script>'),
         _el('<\u017fcript><a href="/long-s-is-not-a-script">x</a></\u017fcript>', "/long-s-is-not-a-script"),      # U+017F folds to 's' only outside ASCII matching
+        _el('<script>document.write(\'<a href="http://in.script.with-spaced-end-tag.com/">x</a>\')</script >'),      # an end tag may have whitespace before '>'
+        _el('<area shape="rect" href="http://area.example.com/map"><abbr title="t" href="/abbr">x</abbr>'),          # not anchors
         _el("du texte avec des accents éàü et une espace\u00a0insécable, 1 < 2."),
         _el('<a\u00a0href="/nbsp-is-not-a-space">nbsp</a>'),
         _el('<a name="noattr">no href</a><b>bold</b>'),
@@ -368,17 +371,20 @@ def _routes(plat, segs):
 
 C19 = {
     "platforms": {
-        "facebook": _plat(["https://www.facebook.com", "http://m.facebook.com", "facebook.com", "https://fr-fr.facebook.com"],
+        "facebook": _plat(["https://www.facebook.com", "http://m.facebook.com", "facebook.com", "https://fr-fr.facebook.com", "https://WWW.FACEBOOK.COM"],
                           ["groups", "posts", "permalink", "photos", "videos", "people", "watch", "profile.php", "permalink.php", "story.php", "photo.php", "photo",
                            "10157890123456789", "some.page", "a.10150123456789", "x", "l.php", "1234567", "12345678abc"],      # short numeric id, digit-prefixed handle
                           ["v=1234567890", "id=100012345678", "story_fbid=10157", "fbid=10158", "set=a.10150&type=3", "set=g.123456", "u=http%3A%2F%2Fexample.com&h=AT0", "comment_id=9"],
                           ["", "comment"]),
         "youtube": _plat(["https://www.youtube.com", "http://youtu.be", "youtube.com", "https://m.youtube.com", "https://www.youtube-nocookie.com"],
-                         ["watch", "embed", "shorts", "channel", "user", "c", "v", "playlist", "dQw4w9WgXcQ", "UCabcdefghijklmnopqrstuv", "SomeName", "@handle", "short", "videos", "x"],
-                         ["v=dQw4w9WgXcQ", "v=tooshort", "list=PLabc123", "v=dQw4w9WgXcQextra", "t=10", "next=%2Fwatch%3Fv%3DdQw4w9WgXcQ", "feature=share"],
+                         ["watch", "embed", "shorts", "channel", "user", "c", "v", "playlist", "dQw4w9WgXcQ", "UCabcdefghijklmnopqrstuv", "SomeName", "@handle", "short", "videos", "x",
+                          "results", "@watch"],
+                         ["v=dQw4w9WgXcQ", "v=tooshort", "list=PLabc123", "v=dQw4w9WgXcQextra", "t=10", "next=%2Fwatch%3Fv%3DdQw4w9WgXcQ", "feature=share",
+                          "next=%2Fwatch%3Fv%3Dabc", "q=x"],
                          ["", "!v=dQw4w9WgXcQ", "/watch?v=dQw4w9WgXcQ"]),
         "twitter": _plat(["https://twitter.com", "http://x.com", "twitter.com", "https://mobile.twitter.com"],
-                         ["i", "lists", "status", "statuses", "medialab_ScPo", "@user", "123456789", "home", "search", "intent", "photo", "1", "toolonghandlethatexceedsthelimit"],
+                         ["i", "lists", "status", "statuses", "medialab_ScPo", "@user", "123456789", "home", "search", "intent", "photo", "1", "toolonghandlethatexceedsthelimit",
+                          "I", "@", "@explore", "HOME"],
                          ["lang=fr", "s=20", "q=x"], ["", "!/user", "!/user/status/12", "!"]),
         "instagram": _plat(["https://www.instagram.com", "http://instagram.com", "instagram.com"],
                            ["p", "reel", "reels", "tv", "stories", "explore", "accounts", "some_user.name", "BxKRx5CHn5i", "bad$code", "x", "tags"],
@@ -395,7 +401,8 @@ C19 = {
                                                "reporthistory", "results", "t", "upload", "yt", "embed", "shorts", "channel", "user", "c", "v", "video"]],
     "foreign": [cp(x) for x in ["", "   ", "http://example.com/a/b", "not a url", "ftp://x.y/z", "http://", "//", "facebook", "youtu.be", "http://notfacebook.com/groups/1/posts/2",
                                   "javascript:void(0)", "http://[::1]/watch?v=dQw4w9WgXcQ", "/groups/123/posts/456", "/some.page", "?v=dQw4w9WgXcQ",
-                                  "http://[", "http://[@facebook.com/x", "http://youtube.com]/watch?v=dQw4w9WgXcQ", "http://[t.me]/s/x"]],
+                                  "http://[", "http://[@facebook.com/x", "http://youtube.com]/watch?v=dQw4w9WgXcQ", "http://[t.me]/s/x",
+                                  "facebook.com/ ", "https://fb.me/ ", "https://www.facebook.com/\u00a0"]],
 }
 
 
